@@ -1,10 +1,355 @@
 (* FunsColl.v — collection, list, object, string and type functions.
    `sem_coll f vals = Some r` : f is modelled here and yields r on these argument values
-   (r = None is jawk's "nothing"); `None` : f is not modelled in this file. *)
-From Jawk Require Import Base F64 Json Printer Fn FunBase.
+   (r = None is jawk's "nothing"); `None` : f is not modelled in this file.
+   Sources: src/functions/basic/collection, list/{list_folding,list_manipulations,list_producers},
+   object/{manipulate_object,object_to_list,sort_objects}, string, type_group. *)
+From Jawk Require Import Base F64 Json Reader JsonParser Printer Fn FunBase.
 Local Open Scope N_scope.
 
+(* ---------- list helpers with a usize counter (no conversion of a huge N to nat) ---------- *)
+Fixpoint take_n {A} (n : N) (l : list A) : list A :=          (* iter.take(n) *)
+  match l with
+  | [] => []
+  | x :: t => if n =? 0 then [] else x :: take_n (N.pred n) t
+  end.
+Fixpoint skip_n {A} (n : N) (l : list A) : list A :=          (* iter.skip(n) *)
+  match l with
+  | [] => []
+  | x :: t => if n =? 0 then l else skip_n (N.pred n) t
+  end.
+Definition len_N {A} (l : list A) : N := N.of_nat (length l).
+(* the last n elements, everything when n exceeds the length (N subtraction saturates) *)
+Definition take_last_n {A} (n : N) (l : list A) : list A := skip_n (len_N l - n) l.
+
+Fixpoint last_opt {A} (l : list A) : option A :=
+  match l with
+  | [] => None
+  | [x] => Some x
+  | _ :: t => last_opt t
+  end.
+
+(* the arguments that are present, in order *)
+Fixpoint present (vals : list (option json)) : list json :=
+  match vals with
+  | [] => []
+  | Some v :: t => v :: present t
+  | None :: t => present t
+  end.
+
+(* every argument is an array (cross, zip) *)
+Fixpoint all_arrays (vals : list (option json)) : option (list (list json)) :=
+  match vals with
+  | [] => Some []
+  | Some (JArr l) :: t => option_map (cons l) (all_arrays t)
+  | _ => None
+  end.
+(* every argument is a string (concat) *)
+Fixpoint all_strings (vals : list (option json)) : option str :=
+  match vals with
+  | [] => Some []
+  | Some (JStr s) :: t => option_map (app s) (all_strings t)
+  | _ => None
+  end.
+
+Definition k_value : str := [118; 97; 108; 117; 101].
+Definition k_index : str := [105; 110; 100; 101; 120].
+Definition k_key : str := [107; 101; 121].
+Definition dot_key (i : nat) : str := 46 :: digits_of_N (N.of_nat i).     (* format!(".{i}") *)
+
+(* ---------- basic/collection ---------- *)
+Definition coll_apply (fo : list (str * json) -> list (str * json)) (fa : list json -> list json)
+                      (fs : str -> str) (v : option json) : option json :=
+  match v with
+  | Some (JObj m) => Some (JObj (fo m))
+  | Some (JArr l) => Some (JArr (fa l))
+  | Some (JStr s) => Some (JStr (fs s))
+  | _ => None
+  end.
+
+Definition sub_sem (vals : list (option json)) : option json :=
+  match usize_of (arg vals 1%nat), usize_of (arg vals 2%nat) with
+  | Some start, Some len =>
+      coll_apply (fun m => take_n len (skip_n start m)) (fun l => take_n len (skip_n start l))
+                 (fun s => take_n len (skip_n start s)) (arg vals 0%nat)
+  | _, _ => None
+  end.
+Definition take_sem (vals : list (option json)) : option json :=
+  match usize_of (arg vals 1%nat) with
+  | Some n => coll_apply (take_n n) (take_n n) (take_n n) (arg vals 0%nat)
+  | None => None
+  end.
+Definition take_last_sem (vals : list (option json)) : option json :=
+  match usize_of (arg vals 1%nat) with
+  | Some n => coll_apply (take_last_n n) (take_last_n n) (take_last_n n) (arg vals 0%nat)
+  | None => None
+  end.
+
+(* ---------- list/list_folding ---------- *)
+Definition is_true (v : json) : bool := match v with JBool true => true | _ => false end.
+
+Fixpoint join_go (sep : str) (first : bool) (l : list json) : option str :=
+  match l with
+  | [] => Some []
+  | JStr s :: t => option_map (fun r => (if first then s else sep ++ s) ++ r) (join_go sep false t)
+  | _ => None
+  end.
+Definition join_sem (vals : list (option json)) : option json :=
+  let sep := match arg vals 1%nat with Some (JStr s) => s | _ => [44; 32] end in
+  match arg vals 0%nat with
+  | Some (JArr l) => option_map JStr (join_go sep true l)
+  | _ => None
+  end.
+
+(* sum: f64 additions. Modelled only where every addition is exact: all items integers of
+   magnitude <= 2^53 and all partial sums of magnitude <= 2^53 (and where the result is nothing). *)
+Definition is_num (v : json) : bool := match v with JNum _ => true | _ => false end.
+Definition small (z : Z) : bool := (Z.abs z <=? p53)%Z.
+Fixpoint sum_exact (l : list json) (acc : Z) : option Z :=
+  match l with
+  | [] => Some acc
+  | JNum (NPos n) :: t =>
+      let x := Z.of_N n in
+      if small x && small (acc + x)%Z then sum_exact t (acc + x)%Z else None
+  | JNum (NNeg z) :: t =>
+      if small z && small (acc + z)%Z then sum_exact t (acc + z)%Z else None
+  | _ => None
+  end.
+Definition sum_sem (vals : list (option json)) : option (option json) :=
+  match arg vals 0%nat with
+  | Some (JArr l) =>
+      if negb (forallb is_num l) then Some None
+      else match sum_exact l 0%Z with
+           | Some z => Some (Some (JNum (if (z <? 0)%Z then NNeg z else NPos (Z.to_N z))))
+           | None => None                      (* needs rounding: not modelled here *)
+           end
+  | _ => Some None
+  end.
+
+(* ---------- list/list_manipulations ---------- *)
+Fixpoint indexed_go (i : nat) (l : list json) : list json :=
+  match l with
+  | [] => []
+  | v :: t => JObj (obj_insert k_index (jnat i) (obj_insert k_value v [])) :: indexed_go (S i) t
+  end.
+
+(* Vec::dedup: drop an element equal to the last retained one *)
+Fixpoint dedup_from (kept : json) (l : list json) : list json :=
+  match l with
+  | [] => []
+  | x :: t => if jeqb x kept then dedup_from kept t else x :: dedup_from x t
+  end.
+Definition dedup (l : list json) : list json :=
+  match l with [] => [] | x :: t => x :: dedup_from x t end.
+
+Definition on_array (f : list json -> json) (v : option json) : option json :=
+  match v with Some (JArr l) => Some (f l) | _ => None end.
+
+(* ---------- list/list_producers ---------- *)
+Fixpoint cross_go (i : nat) (lists : list (list json)) (joined : list (list (str * json)))
+  : list (list (str * json)) :=
+  match lists with
+  | [] => joined
+  | lst :: t =>
+      cross_go (S i) t
+        (flat_map (fun v => map (fun so_far => obj_insert (dot_key i) v so_far) joined) lst)
+  end.
+
+Fixpoint zip_row (idx : nat) (i : nat) (lists : list (list json)) (acc : list (str * json))
+  : list (str * json) :=
+  match lists with
+  | [] => acc
+  | l :: t =>
+      zip_row idx (S i) t
+        (match nth_error l idx with Some v => obj_insert (dot_key i) v acc | None => acc end)
+  end.
+Definition max_len (lists : list (list json)) : nat :=
+  fold_left (fun m l => Nat.max m (length l)) lists O.
+
+(* ---------- object ---------- *)
+Definition obj_has (k : str) (m : list (str * json)) : bool :=
+  match obj_get k m with Some _ => true | None => false end.
+
+Definition obj3 (f : list (str * json) -> str -> json -> list (str * json))
+                (vals : list (option json)) : option json :=
+  match arg vals 0%nat, arg vals 1%nat, arg vals 2%nat with
+  | Some (JObj m), Some (JStr k), Some v => Some (JObj (f m k v))
+  | _, _, _ => None
+  end.
+Definition on_object (f : list (str * json) -> json) (v : option json) : option json :=
+  match v with Some (JObj m) => Some (f m) | _ => None end.
+
+(* ---------- string ---------- *)
+Fixpoint is_prefix (p s : str) : bool :=
+  match p, s with
+  | [], _ => true
+  | a :: p', b :: s' => (a =? b) && is_prefix p' s'
+  | _ :: _, [] => false
+  end.
+(* str::split with a non-empty pattern: leftmost non-overlapping matches. `skip` counts the
+   characters of the current match that are still to be passed over. *)
+Fixpoint split_go (p : str) (skip : nat) (cur : str) (s : str) : list str :=
+  match s with
+  | [] => [cur]
+  | c :: t =>
+      match skip with
+      | S k => split_go p k cur t
+      | O => if is_prefix p s then cur :: split_go p (pred (length p)) [] t
+             else split_go p O (cur ++ [c]) t
+      end
+  end.
+(* the empty pattern matches at every character boundary, both ends included *)
+Definition split_str (s p : str) : list str :=
+  match p with
+  | [] => [] :: map (fun c => [c]) s ++ [[]]
+  | _ => split_go p O [] s
+  end.
+
+(* BASE64_STANDARD.decode: standard alphabet, canonical padding required, no trailing bits *)
+Definition b64_val (b : N) : option N :=
+  if (65 <=? b) && (b <=? 90) then Some (b - 65)
+  else if (97 <=? b) && (b <=? 122) then Some (b - 71)
+  else if (48 <=? b) && (b <=? 57) then Some (b + 4)
+  else if b =? 43 then Some 62
+  else if b =? 47 then Some 63
+  else None.
+Definition b64_last (a b c d : N) : option (list byte) :=
+  match b64_val a, b64_val b with
+  | Some x, Some y =>
+      if (c =? 61) && (d =? 61) then
+        (if y mod 16 =? 0 then Some [x * 4 + y / 16] else None)
+      else match b64_val c with
+           | Some z =>
+               if d =? 61 then
+                 (if z mod 4 =? 0 then Some [x * 4 + y / 16; (y mod 16) * 16 + z / 4] else None)
+               else match b64_val d with
+                    | Some w => Some [x * 4 + y / 16; (y mod 16) * 16 + z / 4; (z mod 4) * 64 + w]
+                    | None => None
+                    end
+           | None => None
+           end
+  | _, _ => None
+  end.
+Fixpoint b64_decode (bs : list byte) : option (list byte) :=
+  match bs with
+  | [] => Some []
+  | [a; b; c; d] => b64_last a b c d
+  | a :: b :: c :: d :: rest =>
+      match b64_val a, b64_val b, b64_val c, b64_val d with
+      | Some x, Some y, Some z, Some w =>
+          option_map (fun r => (x * 4 + y / 16) :: ((y mod 16) * 16 + z / 4) :: ((z mod 4) * 64 + w) :: r)
+                     (b64_decode rest)
+      | _, _, _, _ => None
+      end
+  | _ => None
+  end.
+Definition base64_sem (v : option json) : option json :=
+  match v with
+  | Some (JStr s) =>
+      match b64_decode (utf8_encode s) with
+      | Some bytes => option_map JStr (utf8_decode bytes)
+      | None => None
+      end
+  | _ => None
+  end.
+
+(* parse: exactly one JSON value in the text (white space around it allowed) *)
+Definition parse_sem (v : option json) : option json :=
+  match v with
+  | Some (JStr s) =>
+      match next_json_value (reader_of_bytes (utf8_encode s)) with
+      | (POk first, r) => match next_json_value r with (PEof, _) => Some first | _ => None end
+      | _ => None
+      end
+  | _ => None
+  end.
+
+Definition str_num_sem (f : str -> N -> str) (vals : list (option json)) : option json :=
+  match arg vals 0%nat, arg vals 1%nat with
+  | Some (JStr s), Some (JNum (NPos n)) => Some (JStr (f s n))
+  | _, _ => None
+  end.
+
+(* ---------- the hook ---------- *)
+Definition jb (b : bool) : option (option json) := Some (Some (JBool b)).
+
 Definition sem_coll (f : fn) (vals : list (option json)) : option (option json) :=
+  let a0 := arg vals 0%nat in
   match f with
+  (* basic/collection *)
+  | F_sub => Some (sub_sem vals)
+  | F_take => Some (take_sem vals)
+  | F_take_last => Some (take_last_sem vals)
+  (* list/list_folding *)
+  | F_all => Some (on_array (fun l => JBool (match l with [] => false | _ => forallb is_true l end)) a0)
+  | F_any => Some (on_array (fun l => JBool (existsb is_true l)) a0)
+  | F_first => Some (match a0 with Some (JArr l) => hd_error l | _ => None end)
+  | F_last => Some (match a0 with Some (JArr l) => last_opt l | _ => None end)
+  | F_join => Some (join_sem vals)
+  | F_sum => sum_sem vals
+  (* list/list_manipulations *)
+  | F_indexed => Some (on_array (fun l => JArr (indexed_go O l)) a0)
+  | F_pop => Some (on_array (fun l => JArr (removelast l)) a0)
+  | F_pop_first => Some (on_array (fun l => JArr (tl l)) a0)
+  | F_push => Some (on_array (fun l => JArr (l ++ present (tl vals))) a0)
+  | F_push_front => Some (on_array (fun l => JArr (rev (present (tl vals)) ++ l)) a0)
+  | F_reverese => Some (on_array (fun l => JArr (rev l)) a0)
+  | F_sort => Some (on_array (fun l => JArr (ssort jcmpS l)) a0)
+  | F_sort_unique => Some (on_array (fun l => JArr (dedup (ssort jcmpS l))) a0)
+  (* list/list_producers *)
+  | F_cross =>
+      Some (match all_arrays vals with
+            | Some lists => Some (JArr (map JObj (cross_go O lists [[]])))
+            | None => None
+            end)
+  | F_range =>
+      Some (match a0 with
+            | Some (JNum (NPos n)) => Some (JArr (map jnat (seq O (N.to_nat n))))
+            | _ => None
+            end)
+  | F_zip =>
+      Some (match all_arrays vals with
+            | Some lists =>
+                Some (JArr (map (fun idx => JObj (zip_row idx O lists [])) (seq O (max_len lists))))
+            | None => None
+            end)
+  (* object/manipulate_object *)
+  | F_insert_if_absent => Some (obj3 (fun m k v => if obj_has k m then m else obj_insert k v m) vals)
+  | F_put => Some (obj3 (fun m k v => obj_insert k v m) vals)
+  | F_replace_if_exists => Some (obj3 (fun m k v => if obj_has k m then obj_insert k v m else m) vals)
+  (* object/object_to_list *)
+  | F_entries =>
+      Some (on_object (fun m => JArr (map (fun kv =>
+              JObj (obj_insert k_key (JStr (fst kv)) (obj_insert k_value (snd kv) []))) m)) a0)
+  | F_keys => Some (on_object (fun m => JArr (map (fun kv => JStr (fst kv)) m)) a0)
+  | F_values => Some (on_object (fun m => JArr (map snd m)) a0)
+  (* object/sort_objects *)
+  | F_sort_by_keys => Some (on_object (fun m => JObj (ssort (fun a b => str_cmp (fst a) (fst b)) m)) a0)
+  | F_sort_by_values => Some (on_object (fun m => JObj (ssort (fun a b => jcmpS (snd a) (snd b)) m)) a0)
+  (* string *)
+  | F_concat => Some (option_map JStr (all_strings vals))
+  | F_head => Some (str_num_sem (fun s n => take_n n s) vals)
+  | F_tail => Some (str_num_sem (fun s n => if len_N s <? n then s else skip_n n s) vals)
+  | F_split =>
+      Some (match a0, arg vals 1%nat with
+            | Some (JStr s), Some (JStr p) => Some (JArr (map JStr (split_str s p)))
+            | _, _ => None
+            end)
+  | F_base63_decode => Some (base64_sem a0)
+  | F_parse => Some (parse_sem a0)
+  | F_stringify => Some (option_map (fun v => JStr (show v)) a0)
+  (* type_group/cast *)
+  | F_as_array => Some (match a0 with Some (JArr l) => Some (JArr l) | _ => None end)
+  | F_as_boolean => Some (match a0 with Some (JBool b) => Some (JBool b) | _ => None end)
+  | F_as_number => Some (match a0 with Some (JNum n) => Some (JNum n) | _ => None end)
+  | F_as_object => Some (match a0 with Some (JObj m) => Some (JObj m) | _ => None end)
+  | F_as_string => Some (match a0 with Some (JStr s) => Some (JStr s) | _ => None end)
+  (* type_group/check_types *)
+  | F_is_array => jb (match a0 with Some (JArr _) => true | _ => false end)
+  | F_is_bool => jb (match a0 with Some (JBool _) => true | _ => false end)
+  | F_is_empty => jb (match a0 with Some _ => false | None => true end)
+  | F_is_null => jb (match a0 with Some JNull => true | _ => false end)
+  | F_is_number => jb (match a0 with Some (JNum _) => true | _ => false end)
+  | F_is_object => jb (match a0 with Some (JObj _) => true | _ => false end)
+  | F_is_string => jb (match a0 with Some (JStr _) => true | _ => false end)
   | _ => None
   end.
